@@ -463,6 +463,38 @@ def rule_DISPATCH(ck, lib, sk, rid="C03-G"):
     ck.floor(rid, "data recognisers applied by the parameter parser with computable first bytes", n, 5)
 
 
+def reject_by_grammar(ck, sk, rid, kinds_wanted, what, who, floor):
+    """Every rejecting exit (other than Incomplete) of a recogniser that builds one of `kinds_wanted` lies on a path where a
+    sub-parser or a fallible conversion failed - never behind a test of the recogniser's own on the recognised bytes."""
+    n_rej = 0
+    for path, f in sorted(sk.fns.items()):
+        if f["kind"] != "direct":
+            continue
+        builds = set()
+        for x in f["exits"]:
+            r = sk.exit_result(x)
+            if r and r[0][0] == "ok":
+                v = sk.val_of(r[0][1])
+                if v[0] == "ctor" and v[1].startswith(V):
+                    builds.add(v[1][len(V):])
+        if not (builds & kinds_wanted):
+            continue
+        for i, x in enumerate(f["exits"]):
+            r = sk.exit_result(x)
+            if not (r and r[0][0] == "err"):
+                continue
+            kinds = sk.err_kinds(r[0][1], x, f["ps"])
+            if kinds <= {"incomplete"}:
+                continue
+            n_rej += 1
+            failed = any(oc is False for (_, _, _, oc) in sk.apps_on_path(x, f["ps"])) or \
+                any(c[0] == "is" and c[2] in (OK, SOME) and c[3] is False for c in x.conds)
+            ck.judge(failed, rid, "%s:reject#%d:by-grammar" % (path.split("::")[-1], i), "rejects where a sub-parser or conversion failed",
+                     "%s rejects a %s that all its sub-parsers accepted (a test of its own on the recognised text: %s)"
+                     % (path.split("::")[-1], what, [pathsum.show_term(pathsum.strip_sites(c[1]))[:80] for c in x.conds if c[0] == "true"][-2:]), data=pathsum.show_exit(x)[:1200])
+    ck.floor(rid, "rejecting exits of the %s" % who, n_rej, floor)
+
+
 def rule_G(ck, lib):
     sk = skeleton.Skeleton(ck, lib)
     rule_DISPATCH(ck, lib, sk, "C03-G")
@@ -477,33 +509,7 @@ def rule_G(ck, lib):
     # a numeric recogniser rejects only where its grammar does: every rejecting exit (other than Incomplete) lies on a path
     # where a sub-parser or a fallible conversion failed - never behind a literal recognised in full (a cap on the number
     # of digits or on the exponent refuses well-formed literals whose value is representable)
-    n_rej = 0
-    for path, f in sorted(sk.fns.items()):
-        if f["kind"] != "direct":
-            continue
-        builds = set()
-        for x in f["exits"]:
-            r = sk.exit_result(x)
-            if r and r[0][0] == "ok":
-                v = sk.val_of(r[0][1])
-                if v[0] == "ctor" and v[1].startswith(V):
-                    builds.add(v[1][len(V):])
-        if not (builds & {"Decimal", "Hexadecimal", "Binary", "Octal"}):
-            continue
-        for i, x in enumerate(f["exits"]):
-            r = sk.exit_result(x)
-            if not (r and r[0][0] == "err"):
-                continue
-            kinds = sk.err_kinds(r[0][1], x, f["ps"])
-            if kinds <= {"incomplete"}:
-                continue
-            n_rej += 1
-            failed = any(oc is False for (_, _, _, oc) in sk.apps_on_path(x, f["ps"])) or \
-                any(c[0] == "is" and c[2] in (OK, SOME) and c[3] is False for c in x.conds)
-            ck.judge(failed, "C03-G", "%s:reject#%d:by-grammar" % (path.split("::")[-1], i), "rejects where a sub-parser or conversion failed",
-                     "%s rejects a literal that all its sub-parsers accepted (a test of its own on the recognised text: %s)"
-                     % (path.split("::")[-1], [pathsum.show_term(pathsum.strip_sites(c[1]))[:80] for c in x.conds if c[0] == "true"][-2:]), data=pathsum.show_exit(x)[:1200])
-    ck.floor("C03-G", "rejecting exits of the numeric recognisers", n_rej, 4)
+    reject_by_grammar(ck, sk, "C03-G", {"Decimal", "Hexadecimal", "Binary", "Octal"}, "literal", "numeric recognisers", 4)
     for path, f in sorted(sk.fns.items()):
         if f["kind"] != "direct":
             continue
